@@ -21,6 +21,13 @@ func selfcheck(name string) int {
 			rc = 1
 		}
 	}
+	if name == "" || name == "sched" {
+		ok, rep := selfcheckSched()
+		fmt.Println("selfcheck sched:", rep)
+		if !ok {
+			rc = 1
+		}
+	}
 	if name == "" || name == "refimage" || name == "refimage-full" {
 		ok, rep := selfcheckRefImages(verif, name == "refimage-full")
 		fmt.Println("selfcheck refimage:", rep)
